@@ -1,7 +1,353 @@
+(* Proofs about the micro-step semantics of the notification queue (property C13).
+
+   Main results, for every priority partition with levels of size >= 1 and every sequence of
+   pushes / producer micro-steps / consumer micro-steps (so: every pair of programs and every
+   schedule), unbounded:
+     monitor_only_overlap     the first violation the monitor can find on a model run, if any,
+                              is tagged as lying in an overlapping load..store window
+     overlap_free_accepts     a run whose load..store windows never overlap is accepted
+     safe_discipline_accepts  'the producer is an ISR that runs to completion' + 'the consumer
+                              executes remove()'s load/store with interrupts disabled' => accepted
+     lock_accepts             whole operations mutually exclusive => accepted
+   by a simulation invariant (srel) between the micro-state and the monitor's abstract pending
+   sets that holds as long as no store happens in a disturbed window. *)
 From BT Require Import Base.ListX Base.Bits2 NQueue.NQueueModel NQueue.NQueueSpec NQueue.NQueueProofs NQueue.NQueueSched.
 From Coq Require Import Lia ZifyBool.
-From BT Require Import scratch.PAB.
 Local Open Scope nat_scope.
+
+
+(* ------------------------------------------------------------------ a byte = four 2-bit fields *)
+Definition pk (a b c d : N) : N := (a + 4 * b + 16 * c + 64 * d)%N.
+
+Definition unpack_ok : bool :=
+  forallb (fun v => (v =? pk (bget v 0) (bget v 1) (bget v 2) (bget v 3))%N) (Nrange 256).
+Lemma unpack_ok_true : unpack_ok = true.
+Proof. vm_compute. reflexivity. Qed.
+Lemma unpack v : (v < 256)%N -> v = pk (bget v 0) (bget v 1) (bget v 2) (bget v 3).
+Proof.
+  intros H. pose proof unpack_ok_true as S. unfold unpack_ok in S.
+  rewrite forallb_forall in S. specialize (S v (In_Nrange 256 v H)). apply N.eqb_eq in S. exact S.
+Qed.
+
+Definition pack_ok : bool :=
+  forallb (fun a => forallb (fun b => forallb (fun c => forallb (fun d =>
+    (pk a b c d <? 256)%N && (bget (pk a b c d) 0 =? a)%N && (bget (pk a b c d) 1 =? b)%N &&
+    (bget (pk a b c d) 2 =? c)%N && (bget (pk a b c d) 3 =? d)%N)
+    (Nrange 4)) (Nrange 4)) (Nrange 4)) (Nrange 4).
+Lemma pack_ok_true : pack_ok = true.
+Proof. vm_compute. reflexivity. Qed.
+Lemma bget_pk a b c d : (a < 4)%N -> (b < 4)%N -> (c < 4)%N -> (d < 4)%N ->
+  (pk a b c d < 256)%N /\ bget (pk a b c d) 0 = a /\ bget (pk a b c d) 1 = b /\
+  bget (pk a b c d) 2 = c /\ bget (pk a b c d) 3 = d.
+Proof.
+  intros Ha Hb Hc Hd. pose proof pack_ok_true as S. unfold pack_ok in S.
+  rewrite forallb_forall in S. specialize (S a (In_Nrange 4 a Ha)).
+  rewrite forallb_forall in S. specialize (S b (In_Nrange 4 b Hb)).
+  rewrite forallb_forall in S. specialize (S c (In_Nrange 4 c Hc)).
+  rewrite forallb_forall in S. specialize (S d (In_Nrange 4 d Hd)).
+  repeat rewrite andb_true_iff in S. destruct S as [[[[S0 S1] S2] S3] S4].
+  apply N.ltb_lt in S0. apply N.eqb_eq in S1, S2, S3, S4. auto.
+Qed.
+
+Lemma byte_ext v w : (v < 256)%N -> (w < 256)%N ->
+  (forall t, t < 4 -> bget v t = bget w t) -> v = w.
+Proof.
+  intros Hv Hw H. rewrite (unpack v Hv), (unpack w Hw).
+  rewrite (H 0), (H 1), (H 2), (H 3) by lia. reflexivity.
+Qed.
+
+(* ------------------------------------------------------------------ the abstract bytes of a level *)
+Definition pwf (p : list N) : Prop := forall j, (nth j p 0 < 4)%N.
+
+Lemma pack4_pk p b :
+  pack4 p b = pk (nth (4 * b) p 0%N) (nth (4 * b + 1) p 0%N) (nth (4 * b + 2) p 0%N) (nth (4 * b + 3) p 0%N).
+Proof. reflexivity. Qed.
+
+Lemma pack4_lt p b : pwf p -> (pack4 p b < 256)%N.
+Proof. intros W. rewrite pack4_pk. apply bget_pk; apply W. Qed.
+
+Lemma bget_pack4 p b t : pwf p -> t < 4 -> bget (pack4 p b) t = nth (4 * b + t) p 0%N.
+Proof.
+  intros W Ht. rewrite pack4_pk.
+  destruct (bget_pk _ _ _ _ (W (4 * b)) (W (4 * b + 1)) (W (4 * b + 2)) (W (4 * b + 3))) as (_ & A0 & A1 & A2 & A3).
+  destruct t as [|[|[|[|t]]]]; try lia; auto.
+  rewrite Nat.add_0_r. exact A0.
+Qed.
+
+Lemma idx_split i : i = 4 * boff i + slot i.
+Proof. unfold boff, slot. apply Nat.div_mod. lia. Qed.
+
+Lemma pwf_upd p i x : pwf p -> (x < 4)%N -> pwf (upd p i x).
+Proof.
+  intros W Hx j. destruct (Nat.eq_dec i j) as [->|Hne].
+  - destruct (Nat.lt_ge_cases j (length p)).
+    + rewrite nth_upd_eq by auto. auto.
+    + rewrite upd_out by auto. apply W.
+  - rewrite nth_upd_neq by auto. apply W.
+Qed.
+
+Lemma pack4_upd_other p i x b : b <> boff i -> pack4 (upd p i x) b = pack4 p b.
+Proof.
+  intros Hb. unfold pack4. pose proof (idx_split i). pose proof (slot_lt i).
+  rewrite !nth_upd_neq by lia. reflexivity.
+Qed.
+
+Lemma nth_upd_slot p i x t : i < length p -> t < 4 ->
+  nth (4 * boff i + t) (upd p i x) 0%N = if t =? slot i then x else nth (4 * boff i + t) p 0%N.
+Proof.
+  intros Hi Ht. pose proof (idx_split i). destruct (t =? slot i) eqn:E.
+  - apply Nat.eqb_eq in E. subst t. rewrite <- H. apply nth_upd_eq. auto.
+  - apply Nat.eqb_neq in E. apply nth_upd_neq. lia.
+Qed.
+
+Lemma pack4_upd_or p i k : pwf p -> i < length p ->
+  pack4 (upd p i (N.lor (nth i p 0%N) (kbit k))) (boff i) = byte_or (pack4 p (boff i)) (slot i) (kbit k).
+Proof.
+  intros W Hi. pose proof (kbit_lt k) as Hk. pose proof (slot_lt i) as Hs.
+  pose proof (pack4_lt p (boff i) W) as HB.
+  assert (W' : pwf (upd p i (N.lor (nth i p 0%N) (kbit k)))) by (apply pwf_upd; auto; apply lor_lt4; apply W).
+  destruct (sweep _ _ _ HB Hs Hk) as (S1 & _ & _ & S4 & _ & _ & _ & S8).
+  apply byte_ext; auto using pack4_lt.
+  intros t Ht. rewrite bget_pack4 by auto. rewrite nth_upd_slot by auto.
+  destruct (t =? slot i) eqn:E.
+  - apply Nat.eqb_eq in E. subst t. rewrite S1. rewrite bget_pack4 by auto. rewrite <- idx_split. reflexivity.
+  - apply Nat.eqb_neq in E. destruct (S8 t Ht ltac:(lia)) as (A & _ & _). rewrite A.
+    rewrite bget_pack4 by auto. reflexivity.
+Qed.
+
+Lemma pack4_upd_clr p i k : pwf p -> i < length p ->
+  pack4 (upd p i (N.ldiff (nth i p 0%N) (kbit k))) (boff i) = byte_clr (pack4 p (boff i)) (slot i) (kbit k).
+Proof.
+  intros W Hi. pose proof (kbit_lt k) as Hk. pose proof (slot_lt i) as Hs.
+  pose proof (pack4_lt p (boff i) W) as HB.
+  assert (W' : pwf (upd p i (N.ldiff (nth i p 0%N) (kbit k)))) by (apply pwf_upd; auto; apply ldiff_lt4; apply W).
+  destruct (sweep _ _ _ HB Hs Hk) as (_ & S2 & _ & _ & S5 & _ & _ & S8).
+  apply byte_ext; auto using pack4_lt.
+  intros t Ht. rewrite bget_pack4 by auto. rewrite nth_upd_slot by auto.
+  destruct (t =? slot i) eqn:E.
+  - apply Nat.eqb_eq in E. subst t. rewrite S2. rewrite bget_pack4 by auto. rewrite <- idx_split. reflexivity.
+  - apply Nat.eqb_neq in E. destruct (S8 t Ht ltac:(lia)) as (_ & B & _). rewrite B.
+    rewrite bget_pack4 by auto. reflexivity.
+Qed.
+
+Lemma abs_bytes_length p : length (abs_bytes p) = nbytes (length p).
+Proof. unfold abs_bytes. rewrite map_length, seq_length. reflexivity. Qed.
+
+Lemma nth_abs_bytes p b : b < nbytes (length p) -> nth b (abs_bytes p) 0%N = pack4 p b.
+Proof. intros H. unfold abs_bytes. apply nth_map_seq. auto. Qed.
+
+Lemma abs_bytes_upd p i x : i < length p ->
+  abs_bytes (upd p i x) = upd (abs_bytes p) (boff i) (pack4 (upd p i x) (boff i)).
+Proof.
+  intros Hi. apply nth_ext_len with (d := 0%N).
+  - rewrite upd_length, !abs_bytes_length, upd_length. reflexivity.
+  - intros b Hb. rewrite abs_bytes_length, upd_length in Hb.
+    rewrite nth_abs_bytes by (rewrite upd_length; auto).
+    destruct (Nat.eq_dec b (boff i)) as [->|Hne].
+    + rewrite nth_upd_eq by (rewrite abs_bytes_length; auto). reflexivity.
+    + rewrite nth_upd_neq by auto. rewrite nth_abs_bytes by auto. apply pack4_upd_other. auto.
+Qed.
+
+Lemma pack4_single p : length p = 1 -> pack4 p 0 = nth 0 p 0%N.
+Proof.
+  intros H. destruct p as [|x [|y p]]; simpl in H; try lia.
+  unfold pack4. cbn [Nat.mul Nat.add nth]. lia.
+Qed.
+(* ------------------------------------------------------------------ lists *)
+Lemma Forall2_nth (A B : Type) (R : A -> B -> Prop) l1 l2 d1 d2 n :
+  Forall2 R l1 l2 -> n < length l1 -> R (nth n l1 d1) (nth n l2 d2).
+Proof.
+  intros F. revert n. induction F; intros [|n] Hn; simpl in *; try lia; auto. apply IHF. lia.
+Qed.
+
+Lemma Forall2_upd (A B : Type) (R : A -> B -> Prop) l1 l2 n a b :
+  Forall2 R l1 l2 -> R a b -> Forall2 R (upd l1 n a) (upd l2 n b).
+Proof.
+  intros F Hab. revert n. induction F; intros [|n]; simpl; constructor; auto.
+Qed.
+
+Lemma map_upd (A B : Type) (f : A -> B) l n a : map f (upd l n a) = upd (map f l) n (f a).
+Proof. revert n. induction l as [|h t IH]; intros [|n]; simpl; auto. f_equal. apply IH. Qed.
+
+Lemma addr_eqb_eq a b : addr_eqb a b = true <-> a = b.
+Proof.
+  destruct a as [a1 a2], b as [b1 b2]. unfold addr_eqb. simpl.
+  rewrite andb_true_iff, !Nat.eqb_eq. split; [intros [-> ->]; auto|intros H; inversion H; auto].
+Qed.
+
+(* ------------------------------------------------------------------ memory *)
+Definition is_single (l : level) : bool := match l with Single _ => true | General _ _ _ => false end.
+Definition szs (ls : list level) : list nat := map lsize ls.
+Definition kinds (ls : list level) : list bool := map is_single ls.
+
+Lemma lsize_nth ls lv : lsize (nth lv ls dlevel) = nth lv (szs ls) 1.
+Proof. unfold szs. change 1 with (lsize dlevel). symmetry. apply map_nth. Qed.
+Lemma single_nth ls lv : is_single (nth lv ls dlevel) = nth lv (kinds ls) true.
+Proof. unfold kinds. change true with (is_single dlevel). symmetry. apply map_nth. Qed.
+
+Lemma lbytes_lput l b v : lbytes (lput l b v) = upd (lbytes l) b v.
+Proof. destruct l as [s n q|st]; simpl; auto. destruct b; reflexivity. Qed.
+Lemma lsize_lput l b v : lsize (lput l b v) = lsize l.
+Proof. destruct l as [s n q|st]; simpl; auto. destruct b; reflexivity. Qed.
+Lemma lnxt_lput l b v : lnxt (lput l b v) = lnxt l.
+Proof. destruct l as [s n q|st]; simpl; auto. destruct b; reflexivity. Qed.
+Lemma single_lput l b v : is_single (lput l b v) = is_single l.
+Proof. destruct l as [s n q|st]; simpl; auto. destruct b; reflexivity. Qed.
+
+Lemma szs_mstore ls a v : szs (mstore ls a v) = szs ls.
+Proof.
+  unfold mstore, szs. rewrite map_upd, lsize_lput, lsize_nth. apply upd_same.
+Qed.
+Lemma kinds_mstore ls a v : kinds (mstore ls a v) = kinds ls.
+Proof.
+  unfold mstore, kinds. rewrite map_upd, single_lput, single_nth. apply upd_same.
+Qed.
+Lemma szs_set_next ls lv n : szs (set_next ls lv n) = szs ls.
+Proof.
+  unfold set_next, szs. rewrite map_upd.
+  replace (lsize (lset_next (nth lv ls dlevel) n)) with (lsize (nth lv ls dlevel)) by (destruct (nth lv ls dlevel); reflexivity).
+  rewrite lsize_nth. apply upd_same.
+Qed.
+Lemma kinds_set_next ls lv n : kinds (set_next ls lv n) = kinds ls.
+Proof.
+  unfold set_next, kinds. rewrite map_upd.
+  replace (is_single (lset_next (nth lv ls dlevel) n)) with (is_single (nth lv ls dlevel)) by (destruct (nth lv ls dlevel); reflexivity).
+  rewrite single_nth. apply upd_same.
+Qed.
+Lemma length_mstore ls a v : length (mstore ls a v) = length ls.
+Proof. unfold mstore. apply upd_length. Qed.
+Lemma length_set_next ls lv n : length (set_next ls lv n) = length ls.
+Proof. unfold set_next. apply upd_length. Qed.
+
+Lemma mload_mstore_neq ls a v a' : a <> a' -> mload (mstore ls a v) a' = mload ls a'.
+Proof.
+  destruct a as [lv b], a' as [lv' b']. intros Hne. unfold mload, mstore. simpl.
+  destruct (Nat.eq_dec lv lv') as [<-|Hl].
+  - destruct (Nat.lt_ge_cases lv (length ls)).
+    + rewrite nth_upd_eq by auto. rewrite lbytes_lput. apply nth_upd_neq. congruence.
+    + rewrite upd_out by auto. reflexivity.
+  - rewrite nth_upd_neq by auto. reflexivity.
+Qed.
+
+Lemma mload_set_next ls lv n a : mload (set_next ls lv n) a = mload ls a.
+Proof.
+  destruct a as [lv' b']. unfold mload, set_next. simpl.
+  destruct (Nat.eq_dec lv lv') as [<-|Hl].
+  - destruct (Nat.lt_ge_cases lv (length ls)).
+    + rewrite nth_upd_eq by auto. destruct (nth lv ls dlevel); reflexivity.
+    + rewrite upd_out by auto. reflexivity.
+  - rewrite nth_upd_neq by auto. reflexivity.
+Qed.
+
+(* ------------------------------------------------------------------ level ~ pending values *)
+Record lrel (l : level) (p : list N) : Prop := {
+  lr_len : length p = lsize l;
+  lr_pos : 1 <= lsize l;
+  lr_wf : pwf p;
+  lr_bytes : lbytes l = abs_bytes p;
+  lr_next : lnxt l < lsize l }.
+
+Lemma szs_agree ls m : Forall2 lrel ls m -> szs ls = map (@length N) m.
+Proof. intros F. induction F; simpl; auto. f_equal; auto. symmetry. apply lr_len. auto. Qed.
+
+Lemma lrel_nth ls m lv : Forall2 lrel ls m -> lv < length ls -> lrel (nth lv ls dlevel) (nth lv m []).
+Proof. apply Forall2_nth. Qed.
+
+Lemma len_pend ls m lv : Forall2 lrel ls m -> lv < length ls -> length (nth lv m []) = nth lv (szs ls) 1.
+Proof. intros F H. rewrite <- lsize_nth. apply lr_len. apply lrel_nth; auto. Qed.
+
+Lemma mload_abs ls m lv i :
+  Forall2 lrel ls m -> lv < length ls -> i < nth lv (szs ls) 1 ->
+  mload ls (lv, boff i) = pack4 (nth lv m []) (boff i) /\
+  bget (mload ls (lv, boff i)) (slot i) = pend_at m lv i.
+Proof.
+  intros F Hl Hi. pose proof (lrel_nth ls m lv F Hl) as R. pose proof (len_pend ls m lv F Hl) as L.
+  assert (E : mload ls (lv, boff i) = pack4 (nth lv m []) (boff i)).
+  { unfold mload. simpl. rewrite (lr_bytes _ _ R). apply nth_abs_bytes. apply boff_lt. lia. }
+  split; auto. rewrite E. rewrite bget_pack4 by (apply (lr_wf _ _ R) || apply slot_lt).
+  rewrite <- idx_split. reflexivity.
+Qed.
+
+Lemma pend_at_set_eq m lv i x :
+  lv < length m -> i < length (nth lv m []) -> pend_at (pend_set m lv i x) lv i = x.
+Proof. intros Hl Hi. unfold pend_at, pend_set. rewrite nth_upd_eq by auto. apply nth_upd_eq. auto. Qed.
+
+Lemma pend_at_set_neq m lv i x lv' i' :
+  (lv', i') <> (lv, i) -> pend_at (pend_set m lv i x) lv' i' = pend_at m lv' i'.
+Proof.
+  intros Hne. unfold pend_at, pend_set.
+  destruct (Nat.eq_dec lv lv') as [<-|Hl].
+  - destruct (Nat.lt_ge_cases lv (length m)).
+    + rewrite nth_upd_eq by auto. apply nth_upd_neq. congruence.
+    + rewrite upd_out by auto. reflexivity.
+  - rewrite nth_upd_neq by auto. reflexivity.
+Qed.
+
+Lemma abs_byte_set m lv i x b :
+  lv < length m -> abs_byte (pend_set m lv i x) (lv, b) = pack4 (upd (nth lv m []) i x) b.
+Proof. intros H. unfold abs_byte, pend_set. simpl. rewrite nth_upd_eq by auto. reflexivity. Qed.
+
+Lemma lrel_store ls m lv i x :
+  Forall2 lrel ls m -> lv < length ls -> i < nth lv (szs ls) 1 -> (x < 4)%N ->
+  Forall2 lrel (mstore ls (lv, boff i) (pack4 (upd (nth lv m []) i x) (boff i))) (pend_set m lv i x).
+Proof.
+  intros F Hl Hi Hx. pose proof (lrel_nth ls m lv F Hl) as R. pose proof (len_pend ls m lv F Hl) as L.
+  unfold mstore, pend_set. simpl. apply Forall2_upd; auto.
+  destruct R as [R1 R2 R3 R4 R5]. constructor.
+  - rewrite upd_length, lsize_lput. auto.
+  - rewrite lsize_lput. auto.
+  - apply pwf_upd; auto.
+  - rewrite lbytes_lput, R4. symmetry. apply abs_bytes_upd. lia.
+  - rewrite lnxt_lput, lsize_lput. auto.
+Qed.
+
+Lemma lrel_set_next ls m lv n :
+  Forall2 lrel ls m -> n < nth lv (szs ls) 1 -> Forall2 lrel (set_next ls lv n) m.
+Proof.
+  intros F Hn. unfold set_next.
+  destruct (Nat.lt_ge_cases lv (length ls)) as [Hl|Hl]; [|rewrite upd_out by auto; auto].
+  pose proof (lrel_nth ls m lv F Hl) as R.
+  rewrite <- (upd_same m lv []). apply Forall2_upd; auto.
+  rewrite <- lsize_nth in Hn.
+  destruct R as [R1 R2 R3 R4 R5]. destruct (nth lv ls dlevel) as [s nx q|st]; simpl in *; constructor; simpl; auto.
+Qed.
+
+(* ------------------------------------------------------------------ locating a characteristic *)
+Definition offs (z : list nat) (lv : nat) : nat := list_sum (firstn lv z).
+
+Lemma locate_bound z : forall lv0 gi lv i,
+  locate z lv0 gi = Some (lv, i) -> lv0 <= lv /\ lv - lv0 < length z /\ i < nth (lv - lv0) z 1.
+Proof.
+  induction z as [|s t IH]; intros lv0 gi lv i H; simpl in H; [discriminate|].
+  destruct (gi <? s) eqn:E.
+  - inversion H; subst. apply Nat.ltb_lt in E. rewrite Nat.sub_diag. simpl. lia.
+  - apply IH in H. destruct H as (A & B & C). replace (lv - lv0) with (S (lv - S lv0)) by lia. simpl. lia.
+Qed.
+
+Lemma locate_offs z : forall lv0 lv i,
+  lv < length z -> i < nth lv z 1 -> locate z lv0 (i + offs z lv) = Some (lv0 + lv, i).
+Proof.
+  induction z as [|s t IH]; intros lv0 lv i Hl Hi; simpl in Hl; [lia|].
+  destruct lv as [|lv]; simpl in *.
+  - unfold offs. simpl. rewrite Nat.add_0_r. apply Nat.ltb_lt in Hi. rewrite Hi. f_equal. f_equal. lia.
+  - unfold offs. simpl. fold (offs t lv).
+    assert (i + (s + offs t lv) <? s = false) as -> by (apply Nat.ltb_ge; lia).
+    replace (i + (s + offs t lv) - s) with (i + offs t lv) by lia.
+    rewrite IH by lia. f_equal. f_equal. lia.
+Qed.
+
+Lemma offs_S z lv : lv < length z -> offs z (S lv) = offs z lv + nth lv z 1.
+Proof.
+  revert lv. induction z as [|s t IH]; intros lv H; simpl in H; [lia|].
+  destruct lv as [|lv]; [unfold offs; simpl; lia|].
+  change (offs (s :: t) (S (S lv))) with (s + offs t (S lv)).
+  change (offs (s :: t) (S lv)) with (s + offs t lv).
+  change (nth (S lv) (s :: t) 1) with (nth lv t 1).
+  rewrite IH by lia. lia.
+Qed.
+
+Lemma Forall2_len {A B : Type} {R : A -> B -> Prop} {l1 l2} : Forall2 R l1 l2 -> length l1 = length l2.
+Proof. intros F. induction F; simpl; auto. Qed.
 (* ------------------------------------------------------------------ system ~ monitor *)
 Definition pinv (s : sys) (m : smon) : Prop :=
   match pst s with
